@@ -1,10 +1,42 @@
+import os
+
+from .. import common as C
+
+
+def contract_check(tier, seed, binaries):
+    """Oracle-only run on the REAL ACL engine + PluggableOutboundAdapter (module extras): the Outbound
+    contract the theorems assume (UDP(a) ok => CheckUDP(a) ok; UDP("") fails) on sampled addresses."""
+    b = binaries.get(("extras", False))
+    if not b:
+        return [{"what": "extras harness not built: the Outbound contract was not sampled"}], [], None
+    n = 4000 if tier == "quick" else 200000
+    out = os.path.join(C.BUILD, "runs", "C08", "udpcontract-gen")
+    rc, o = C.run([b, "udpcontract", "-seed", str(seed), "-n", str(n), "-out", out], timeout=900)
+    if rc != 0:
+        return [{"what": "udpcontract run failed", "detail": o[-2000:]}], [], None
+    ops = open(os.path.join(out, "ops.txt")).read().split("\n")
+    impl = open(os.path.join(out, "impl.txt")).read().split("\n")
+    fails = []
+    for ln in open(os.path.join(out, "oracle.txt")):
+        k, _, msg = ln.rstrip("\n").partition("\t")
+        if not k:
+            continue
+        k = int(k)
+        fails.append({"component": "udpcontract", "op": ops[k - 1], "ops": [ops[k - 1]], "impl": impl[k - 1], "what": msg})
+    both = sum(1 for x in impl if x == "udp=true chk=true")
+    neither = sum(1 for x in impl if x == "udp=false chk=false")
+    return [], fails, "udpcontract: %d addresses on 8 rule sets through the real aclEngine+adapter: %d allowed by both, %d refused by both, %d contract failures" % (
+        n, both, neither, len(fails))
+
+
 _GOTEST = {"kind": "gotest", "mod": "core", "pkg": "./server", "run": "^TestVerifC07$", "reset_re": "^reset", "timeout": 1500}
 
 CFG = {
     "props_module": "Hy.Props.C08",
-    "gen_modules": ["core"],
+    "gen_modules": ["core", "extras"],
     "level": "proof",
     "race": True,
+    "extra_checks": [contract_check],
     "streams": [
         dict(_GOTEST, component="udpacl", driver="udpacl", n={"quick": 6000, "thorough": 150000}),
         dict(_GOTEST, component="udpsession", driver="udpsession", n={"quick": 2000, "thorough": 60000}),
@@ -31,7 +63,7 @@ CFG = {
 }
 
 MANIFEST = {
-    "text": "Proof: 10 Lean theorems over an executable model of udpSessionEntry.Feed's destination handling (initConn/hook override, "
+    "text": "Proof: 13 Lean theorems (8 properties, 2 constant and 3 source-skeleton obligations) over an executable model of udpSessionEntry.Feed's destination handling (initConn/hook override, "
             "cache seeding, checkAddr with the 256-entry decision cache and arbitrary eviction victim): for every policy, every destination "
             "sequence, every dial/hook outcome and every eviction choice, each cached verdict equals the policy's (cache_sound, "
             "verdict_is_policy), every WriteTo goes to an allowed destination and a denied one never receives a datagram (writes_allowed, "
